@@ -25,7 +25,11 @@ fn main() {
         let mut panic_msg = "none".to_string();
         if let Err(e) = r {
             if e.downcast_ref::<xh::sym::AssumeFailed>().is_some() {
-                failed = vec!["ASSUME".to_string()];
+                // checks that failed before the violated assumption still count
+                // (the solver's model only has to satisfy the path up to the check)
+                if failed.last().map(|s| s.as_str()) != Some("ASSUME") {
+                    failed.push("ASSUME".to_string());
+                }
             } else if let Some(s) = e.downcast_ref::<&str>() {
                 panic_msg = s.replace('\n', " ").replace(' ', "_");
             } else if let Some(s) = e.downcast_ref::<String>() {
